@@ -334,13 +334,11 @@ func recordBackendKeepAlive(serverConn *serverConnection, p *packet.KeepAlive) {
 }
 
 func (c *clientPlaySessionHandler) handlePluginMessage(packet *plugin.Message) {
-	serverConn := c.player.connectedServer()
-
-	if serverConn == nil && packet.Channel == forge.LegacyHandshakeChannel {
-		// Handling edge case when packet with FML client handshake (state COMPLETE)
-		// arrives after JoinGame packet from destination server.
-		serverConn = c.player.connectionInFlight()
-	}
+	// Handling edge case when packet with FML client handshake (state COMPLETE)
+	// arrives after JoinGame packet from destination server: fall back to the
+	// connection in flight. Both are read under one lock, the backend's JoinGame
+	// handling moves the in-flight connection to the connected one concurrently.
+	serverConn := c.player.connectedServerOr(packet.Channel == forge.LegacyHandshakeChannel)
 
 	var backendConn netmc.MinecraftConn
 	if serverConn != nil {
